@@ -3,7 +3,7 @@
 // Harness for C09 (export rewriting): runs the real table.UpdatePathAttrs on a generated (global, target peer, stored
 // path) triple and prints the attributes of the peer's copy and, separately, the attributes of the stored path after
 // the copy was produced (producing a copy must not alter the stored route).
-// Line: upa (g as rid (members...)) (peer type as localas rrclient rsclient rmpriv) (path local srcid ATTRS)
+// Line: upa (g as rid (members...)) (peer type as localas rrclient rsclient rmpriv [replace-peer-as 0|1]) (path local srcid ATTRS)
 //   type e|i ; rmpriv 0 none 1 all 2 replace ; ATTRS = (origin ASPATH nh med lp orig CL (unk (type flags)...))
 //   ASPATH = - | ((segtype as...)...)   CL = - | (id...)   med/lp/orig = - | value
 // Out:  ok COPY STORED   with the same ATTRS shape
@@ -153,7 +153,12 @@ func run(line string) (out string) {
 	nlri, _ := bgp.NewIPAddrPrefix(netip.MustParsePrefix("10.9.0.0/24"))
 	stored := table.NewPath(bgp.RF_IPv4_UC, src, bgp.PathNLRI{NLRI: nlri}, false, attrsOf(pa.At(3)), time.Unix(1000, 0), false)
 	before := show(stored.GetPathAttrs())
-	cp := table.UpdatePathAttrs(slog.Default(), global, info, stored)
+	exported := stored
+	if p.Len() > 7 && p.At(7).Atom == "1" {
+		// replace-peer-as, as prePolicyFilterpath applies it before the rest of the export
+		exported = stored.ReplaceAS(info.LocalAS, info.AS)
+	}
+	cp := table.UpdatePathAttrs(slog.Default(), global, info, exported)
 	after := show(stored.GetPathAttrs())
 	if before != after {
 		return "stored-route-altered " + before + " " + after
